@@ -18,6 +18,8 @@ ASSUMPTIONS = [
     "library: k=0, n=0 and m=0 are legal (non_negative_int); the only clause of width 0 is the empty clause, the only parities of width 0 are 0=0 and 0=1",
     "command line: <k> and <n> are parsed with positive_int, so k=0 or n=0 is 'gray': a clean CLIError or a correct formula are both accepted; every other error must be a CLIError (cli) / non-zero exit with empty stdout (main)",
     "with -p the planted assignment is not observable from outside: the check asks for the number of available clauses of *one* planted assignment (which does not depend on the assignment) and for a satisfiable output",
+    "cli_planted_scale: the assignment planted by -p is read where cnfgen.clihelpers.simple_helpers hands it to RandomKCNF / RandomKXOR (a pass-through wrapper around the two names bound in that module; the arguments are forwarded unchanged); '-p plants a random satisfying assignment' is read as: exactly one total assignment of the variables 1..n",
+    "beyond 12 variables no truth table is built: planted assignments are evaluated clause by clause, and the number of compatible clauses / parities is counted per class of variables on which the planted assignments agree (vlib/randref, compared with the brute-force count up to 7 variables on every call)",
     "uniformity of the distribution is not tested",
     "formula_class is left at its default (CNF); the OPB rendering is C08's subject",
     "determinism under seed= / --seed is asserted only for equal arguments in the same process; --seed 0 is exercised for shape only (its being ignored is C07's finding 9)",
@@ -62,9 +64,13 @@ def _container(kind, seq):
 
 
 def _describe(case):
+    planted = case.get('planted', [])
+    if case['n'] > 16:
+        planted = "{} total assignments, true variables {}".format(
+            len(planted), [[l for l in a if l > 0] for a in planted])
     return "{}(k={}, n={}, m={}, planted={}, rseed={}{})".format(
         'RandomKCNF' if case['kind'] == 'cnf' else 'RandomKXOR', case['k'], case['n'], case['m'],
-        case.get('planted', []), case.get('rseed'),
+        planted, case.get('rseed'),
         ", seed={!r}".format(case['seed']) if 'seed' in case else "")
 
 
@@ -91,12 +97,14 @@ def check_formula_shape(kind, k, n, m, nvars, clauses, pbits, what):
                 if rr.parity_value(S, a) != b:
                     raise Violation("{}: parity xor{}={} is falsified by the planted assignment {}".format(
                         what, list(S), b, rr.bits_assignment(n, a)))
-    # the same statement on the clauses themselves, without the decoder (any n)
-    for a in pbits:
-        for c in clauses:
-            if not rr.clause_true(c, a):
-                raise Violation("{}: clause {} is falsified by the planted assignment {}".format(
-                    what, list(c), rr.bits_assignment(n, a)))
+    # beyond 12 variables there is no truth table: the same statement on the clauses
+    # themselves, without the decoder
+    if n > 12:
+        for a in pbits:
+            for c in clauses:
+                if not rr.clause_true(c, a):
+                    raise Violation("{}: clause {} is falsified by the planted assignment {}".format(
+                        what, list(c), rr.bits_assignment(n, a)))
     if n <= 12:
         if parities is None:
             sol = 0 if len(clauses) else tt.full(n)
@@ -582,6 +590,280 @@ def enum_cli(tier):
                                'pre': [h % 7919, h % 104729]}
 
 
+# ---------------------------------------------------------------------------
+# planted assignments on 64 and more variables
+#
+# No truth table here: every planted assignment is evaluated on the produced clauses,
+# the maximum is counted per class of interchangeable variables (vlib/randref).
+# The tree falls back to listing every compatible clause (parity) when 10*m draws do
+# not give m of them; that listing costs about comb(n,k) * 2^k * p * k * n steps, so a
+# case is generated only when the listing is cheap or cannot be needed.
+
+SCALE_NS = {'quick': [64, 65, 90, 130, 200],
+            'thorough': [63, 64, 65, 66, 90, 127, 128, 129, 130, 200, 256]}
+SCALE_CONFIGS = ['one', 'two', 'three', 'four', 'equal', 'complementary', 'all-true',
+                 'high-only', 'high-and-random', 'last-variable-flipped']
+SCALE_MODES = ['1', '7', 'n/2', 'n', '3n', '4n+3', 'max-1', 'max', 'max+1', 'max+2']
+DENSE_CAP = 5e7
+BOUNDARY_CAP = {'quick': 4500, 'thorough': 13000}
+
+
+def _scale_planted(cfg, n, rng):
+    full = (1 << n) - 1
+    high = (full >> 63) << 63               # the variables 64..n (variable i is bit i-1)
+    a, b, c, d = (rng.getrandbits(n) for _ in range(4))
+    sets = {
+        'one': [a], 'two': [a, b], 'three': [a, b, c], 'four': [a, b, c, d],
+        'equal': [a, a], 'complementary': [a, a ^ full], 'all-true': [full],
+        'high-only': [high], 'high-and-random': [high, a],
+        'last-variable-flipped': [a, a ^ (1 << (n - 1))],
+    }[cfg]
+    out = []
+    for x in sets:
+        lits = rr.bits_assignment(n, x)
+        order = rng.randrange(3)
+        if order == 1:
+            lits.reverse()
+        elif order == 2:
+            rng.shuffle(lits)
+        out.append(lits)
+    return out
+
+
+def _total(kind, k, n):
+    return comb(n, k) * (2 ** k if kind == 'cnf' else 2)
+
+
+def _listing_cheap(kind, k, n, p):
+    return _total(kind, k, n) * max(p, 1) * max(k, 1) * n <= DENSE_CAP
+
+
+def _listing_not_needed(kind, k, n, m, mx):
+    """10*m draws give m new compatible items except with negligible probability: at least 40
+    wanted, at most a tenth of the compatible ones, which are at least 23% of all."""
+    return m >= 40 and 10 * m <= mx and mx >= 0.23 * _total(kind, k, n)
+
+
+def _scale_m(mode, n, mx):
+    return {'1': 1, '7': 7, 'n/2': n // 2, 'n': n, '3n': 3 * n, '4n+3': 4 * n + 3,
+            'max-1': max(0, mx - 1), 'max': mx, 'max+1': mx + 1, 'max+2': mx + 2}[mode]
+
+
+def _scale_case(kind, n, k, cfg, mode, seed, cap=BOUNDARY_CAP['quick']):
+    """The case, or None when it could be expensive for the tree."""
+    rng = random.Random(seed)
+    planted = _scale_planted(cfg, n, rng)
+    pbits = tuple(rr.assignment_bits(n, a) for a in planted)
+    mx = _maxfor(kind, k, n, pbits)
+    m = _scale_m(mode, n, mx)
+    cheap = _listing_cheap(kind, k, n, len(planted))
+    if mode.startswith('max'):
+        if not cheap or mx > cap:
+            return None
+    elif not (cheap or _listing_not_needed(kind, k, n, m, mx)):
+        return None
+    return {'kind': kind, 'k': k, 'n': n, 'm': m, 'planted': planted, 'config': cfg, 'mode': mode,
+            'rseed': rng.getrandbits(30), 'pc': 'list', 'ac': ('list', 'tuple')[seed % 2]}
+
+
+def run_scale(case):
+    n = case['n']
+    out = run_library(case)
+    labels = list(out.labels) + ['config=' + case['config'], 'n={}'.format(n)]
+    if n >= 64:
+        labels.append('n>=64')
+    if any(any(l >= 64 for l in a) for a in case['planted']):
+        labels.append('variable>=64-planted-true')
+    if case['mode'].startswith('max'):
+        labels.append('boundary')
+    return Outcome(labels=labels, nontrivial=out.nontrivial and not out.rejected, rejected=out.rejected)
+
+
+def enum_scale(tier):
+    ks = [1, 2, 3, 4] if tier == 'quick' else [1, 2, 3, 4, 5]
+    j = 0
+    for kind in KINDS:
+        for n in SCALE_NS[tier]:
+            for k in ks:
+                for cfg in SCALE_CONFIGS:
+                    j += 1
+                    if tier == 'quick':
+                        modes = [SCALE_MODES[j % 6], SCALE_MODES[6 + j % 4]]
+                    else:
+                        modes = SCALE_MODES
+                    for mode in modes:
+                        seed = zlib.crc32("S{}:{}:{}:{}:{}".format(kind, n, k, cfg, mode).encode())
+                        case = _scale_case(kind, n, k, cfg, mode, seed, BOUNDARY_CAP[tier])
+                        if case is not None:
+                            yield case
+
+
+_SCALE_N_ALL = st.sampled_from(SCALE_NS['thorough'] + [64, 65, 70, 100, 160, 200])
+_SCALE_K = st.sampled_from([1, 2, 2, 3, 3, 4])
+_SCALE_CFG = st.sampled_from(SCALE_CONFIGS)
+_SCALE_MODE = st.sampled_from(SCALE_MODES)
+_SEED32 = st.integers(0, 2 ** 32 - 1)
+_KIND = st.sampled_from(KINDS)
+
+
+@st.composite
+def strat_scale(draw):
+    kind, n, k, cfg, seed = draw(_KIND), draw(_SCALE_N_ALL), draw(_SCALE_K), draw(_SCALE_CFG), draw(_SEED32)
+    case = _scale_case(kind, n, k, cfg, draw(_SCALE_MODE), seed)
+    if case is None:
+        case = _scale_case(kind, n, k, cfg, '3n', seed)
+    if case is None:                        # always possible: one variable per clause
+        case = _scale_case(kind, n, 1, cfg, 'n/2', seed)
+    return case
+
+
+# the command line with -p: the planted assignment is read where the helper hands it to
+# the library function (a pass-through wrapper around the name bound in the helper module)
+
+class _PlantedRecorder:
+    NAMES = ('RandomKCNF', 'RandomKXOR')
+
+    def __init__(self):
+        self.calls = []
+        self.installed = False
+
+    def __enter__(self):
+        import cnfgen.clihelpers.simple_helpers as sh
+        self.mod = sh
+        self.saved = {}
+        for name in self.NAMES:
+            orig = getattr(sh, name, None)
+            if orig is None:
+                continue
+            self.saved[name] = orig
+
+            def wrapper(*args, _orig=orig, _name=name, **kwargs):
+                pa = kwargs.get('planted_assignments')
+                if pa is not None:
+                    pa = [list(a) for a in pa]
+                    kwargs['planted_assignments'] = [list(a) for a in pa]
+                self.calls.append((_name, args, pa))
+                return _orig(*args, **kwargs)
+            setattr(sh, name, wrapper)
+        self.installed = len(self.saved) == len(self.NAMES)
+        return self
+
+    def __exit__(self, *exc):
+        for name, orig in self.saved.items():
+            setattr(self.mod, name, orig)
+        return False
+
+
+def run_cli_scale(case):
+    kind, k, n, m, via = case['kind'], case['k'], case['n'], case['m'], case['via']
+    c = dict(case, plant=True)
+    argv = _argv(c)
+    what = "{} [{}]".format(" ".join(str(a) for a in argv), via)
+    mx = comb(n, k) * ((2 ** k - 1) if kind == 'cnf' else 1)
+    expect_reject = m > mx
+    labels = [kind, via, 'n={}'.format(n)]
+    if case['mode'].startswith('max'):
+        labels.append('boundary')
+    random.seed(case['pre'])
+    with _PlantedRecorder() as rec:
+        r = rr.run_cli(argv, via)
+    if r.kind == 'exit' and via != 'main':
+        raise Violation("{}: cli() left through SystemExit({}) instead of CLIError".format(what, r.code))
+    if r.kind != 'ok':
+        if via == 'main':
+            if r.code in (0, None):
+                raise Violation("{}: main() stopped with exit status {} on an error".format(what, r.code))
+            if r.stdout:
+                raise Violation("{}: error exit but {} characters on stdout".format(what, len(r.stdout)))
+        if not expect_reject:
+            raise Violation("{}: refused ({}) although m={} <= {} available".format(
+                what, (r.value or r.stderr or '').strip().split('\n')[0], m, mx))
+        labels += ['rejected'] + (['m=max+1-rejected'] if m == mx + 1 else [])
+        return Outcome(labels=labels, nontrivial=False, rejected=True)
+    if via == 'formula':
+        nv, clauses = r.value.number_of_variables(), [list(x) for x in r.value]
+    else:
+        try:
+            nv, clauses = rr.read_dimacs(r.value if via == 'string' else r.stdout)
+        except (rr.ShapeError, ValueError) as e:
+            raise Violation("{}: output is not DIMACS: {}".format(what, e))
+    if expect_reject:
+        raise Violation("{}: produced a formula with {} clauses instead of an error (only {} available)".format(
+            what, len(clauses), mx))
+    pbits = ()
+    want = 'RandomKCNF' if kind == 'cnf' else 'RandomKXOR'
+    seen = [pa for name, args, pa in rec.calls if name == want]
+    if rec.installed and len(seen) == 1 and seen[0] is not None:
+        if len(seen[0]) != 1 or sorted(abs(l) for l in seen[0][0]) != list(range(1, n + 1)):
+            raise Violation("{}: -p handed {} to {} instead of one total assignment of the variables 1..{}".format(
+                what, seen[0], want, n))
+        pbits = (rr.assignment_bits(n, seen[0][0]),)
+        labels.append('planted-observed')
+        if any(l >= 64 for l in seen[0][0]):
+            labels.append('variable>=64-planted-true')
+    elif rec.installed and len(seen) == 1:
+        raise Violation("{}: -p was given but {} was called without planted assignments".format(what, want))
+    else:
+        labels.append('planted-not-observed')
+    parities = check_formula_shape(kind, k, n, m, nv, clauses, pbits, what)
+    if kind == 'xor' and parities is not None:
+        # whatever was planted, the linear system must have a solution
+        if not rr.gf2_consistent(parities):
+            raise Violation("{}: -p was given but the linear system has no solution: {}".format(what, parities[:40]))
+        labels.append('system-consistent')
+    if m == mx:
+        labels.append('m=max')
+    return Outcome(labels=labels, nontrivial=m >= 1)
+
+
+def _cli_scale_case(kind, n, k, mode, via, seed, cap=BOUNDARY_CAP['quick']):
+    mx = comb(n, k) * ((2 ** k - 1) if kind == 'cnf' else 1)
+    m = _scale_m(mode, n, mx)
+    cheap = _listing_cheap(kind, k, n, 1)
+    if mode.startswith('max'):
+        if not cheap or mx > cap:
+            return None
+    elif not (cheap or _listing_not_needed(kind, k, n, m, mx)):
+        return None
+    return {'kind': kind, 'k': k, 'n': n, 'm': m, 'mode': mode, 'via': via, 'seed': 1 + seed % 99991,
+            'seedopt': ('--seed', '-S')[seed % 2], 'plantopt': ('-p', '--plant')[(seed // 2) % 2],
+            'plantpos': (seed // 4) % 4, 'quiet': bool((seed // 16) % 4), 'pre': seed % 7919}
+
+
+_VIAS = ['string', 'formula', 'main', 'output']
+
+
+def enum_cli_scale(tier):
+    ks = [1, 2, 3, 4] if tier == 'quick' else [1, 2, 3, 4, 5]
+    j = 0
+    for kind in KINDS:
+        for n in SCALE_NS[tier]:
+            for k in ks:
+                j += 1
+                if tier == 'quick':
+                    modes = [SCALE_MODES[j % 6], SCALE_MODES[6 + j % 4]]
+                else:
+                    modes = SCALE_MODES
+                for mode in modes:
+                    j += 1
+                    seed = zlib.crc32("C{}:{}:{}:{}".format(kind, n, k, mode).encode())
+                    case = _cli_scale_case(kind, n, k, mode, _VIAS[j % 3], seed, BOUNDARY_CAP[tier])
+                    if case is not None:
+                        yield case
+
+
+@st.composite
+def strat_cli_scale(draw):
+    kind, n, k, seed = draw(_KIND), draw(_SCALE_N_ALL), draw(_SCALE_K), draw(_SEED32)
+    via = _VIAS[seed % 4]
+    case = _cli_scale_case(kind, n, k, draw(_SCALE_MODE), via, seed)
+    if case is None:
+        case = _cli_scale_case(kind, n, k, '3n', via, seed)
+    if case is None:
+        case = _cli_scale_case(kind, n, 1, 'n/2', via, seed)
+    return case
+
+
 GRID_LABELS = ['cnf', 'xor', 'm=max', 'm=max+1-rejected', 'k>n-rejected', 'k=n', 'k=0', 'n=0', 'm=0',
                'planted=0', 'planted=1', 'planted>=2', 'planted=3', 'planted-equal', 'planted-complementary',
                'sparse-path', 'dense-path', 'cnf-dense-path', 'xor-dense-path', 'cnf-sparse-path',
@@ -609,6 +891,21 @@ SUBCHECKS = [
              required_labels=['cnf', 'xor', 'plant', 'noplant', 'seed', 'noseed', 'seed=0', 'string', 'formula',
                               'output', 'main', 'm=max', 'm=max+1-rejected', 'k>n-rejected', 'plant-satisfiable',
                               'seed-deterministic', 'k=n', 'gray-zero-argument']),
+    SubCheck('planted_scale', run_scale, strategy=strat_scale, enumerate_cases=enum_scale,
+             quick=60, thorough=4000,
+             rule="RandomKCNF and RandomKXOR with planted total assignments on n in {64, 65, 90, 130, 200} (thorough also 63, 66, 127..129, 256; Hypothesis also 70, 100, 160) variables, k 1..4 (thorough 5), ten planted configurations of 1..4 assignments (random, equal, complementary, all true, only the variables >= 64 true, two assignments differing in variable n; literals listed in increasing, decreasing or shuffled order, lists or tuples), m in {1, 7, n/2, n, 3n, 4n+3} and max-1..max+2; a case is generated only when listing all compatible clauses is cheap for the tree (comb(n,k)*2^k*p*k*n <= 5e7; boundary cases also max <= 4500, thorough 13000) or cannot be needed (40 <= m <= max/10, max >= 23% of all); oracle: ValueError iff m > max, where max is counted by the harness per class of variables on which the planted assignments agree (closed form, compared with the brute-force count for n <= 7); else n variables, m distinct clauses / parities (order-independent decoding of the sign-pattern blocks) on k distinct variables, and every planted assignment evaluated by the harness satisfies every produced clause (no truth table); non-trivial: formula produced, k>=1, m>=1",
+             required_labels=['cnf', 'xor', 'n>=64', 'variable>=64-planted-true', 'n=64', 'n=65', 'n=90', 'n=130',
+                              'n=200', 'planted=1', 'planted>=2', 'planted=4', 'planted-equal',
+                              'planted-complementary', 'boundary', 'm=max', 'm=max+1-rejected', 'dense-path',
+                              'sparse-path', 'xor-sparse-path-planted', 'cnf-sparse-path-planted',
+                              'xor-dense-path-planted', 'cnf-dense-path-planted'] +
+                             ['config=' + c for c in SCALE_CONFIGS]),
+    SubCheck('cli_planted_scale', run_cli_scale, strategy=strat_cli_scale, enumerate_cases=enum_cli_scale,
+             quick=20, thorough=1500,
+             rule="cnfgen [-q] --seed|-S s randkcnf|randkxor -p|--plant (any position) k n m, in-process through cli(mode=string|formula|output) and main(), n in {64, 65, 90, 130, 200} (thorough/Hypothesis as planted_scale), k 1..4, m in {1, 7, n/2, n, 3n, 4n+3} and max-1..max+2 under the same cost bound; the planted assignment is read by a pass-through wrapper around RandomKCNF/RandomKXOR as bound in cnfgen.clihelpers.simple_helpers; oracle: error iff m > max for one planted assignment; else -p hands over exactly one total assignment of 1..n, the output (own DIMACS reader) has n variables and m distinct clauses / parities of width k, every clause is satisfied by the observed assignment (direct evaluation), and the parities form a consistent linear system (GF(2) elimination); non-trivial: formula produced, m>=1",
+             required_labels=['cnf', 'xor', 'string', 'formula', 'main', 'planted-observed',
+                              'variable>=64-planted-true', 'system-consistent', 'boundary', 'm=max',
+                              'm=max+1-rejected', 'n=64', 'n=65', 'n=90', 'n=130', 'n=200']),
     SubCheck('planted_iterable', run_planted_iterable, strategy=strat_planted_iterable,
              quick=600, thorough=20000, max_shards=4,
              rule="planted_assignments passed as a one-shot iterator / generator of lists (the docstring says 'iterable(lists)'); n 1..7, k 1..4, 1..3 assignments; same oracle as grid; non-trivial: m>=1",
